@@ -106,6 +106,51 @@ def body(case, ctx):
     ctx.close('exactness', got, exact, TOL, scale=max(abs(exact), 1e-300), cell=name, _order=n, _mono=mono)
 
 
+def cases_repeat(tier):
+    out = []
+    for name, (kind, meas, nq, nth) in CELLS.items():
+        for n in range(0, (nq if tier == 'quick' else nth) + 1):
+            out.append(dict(cell=name, order=n))
+    return out
+
+
+def body_repeat(case, ctx):
+    """every call returns the rule: also after a caller has rescaled, in place, the arrays an earlier call handed out
+    (mapping a rule to another interval in place is an ordinary thing to do with one's own result)"""
+    import numpy as np
+    import skfem.refdom as rd
+    from skfem.quadrature import get_quadrature
+    name, n = case['cell'], case['order']
+
+    def fetch(c_, k):
+        try:
+            X, W = get_quadrature(getattr(rd, c_), k)
+        except Exception:
+            return None
+        return np.array(X, dtype=float, copy=True), np.array(W, dtype=float, copy=True)
+    related = [(c_, k) for c_ in CELLS for k in (n - 1, n, n + 1) if k >= 0]
+    before = {key: fetch(*key) for key in related}
+    try:
+        X, W = get_quadrature(getattr(rd, name), n)
+    except Exception:
+        ctx.cls(f'{name}:raises')
+        return
+    ctx.cls(f'{name}:rule')
+    ctx.nt()
+    for arr in (X, W):
+        arr = np.asarray(arr)
+        if isinstance(arr, np.ndarray) and arr.flags.writeable and arr.size:
+            arr *= -2.0
+            arr += 1.0
+    for key in related:
+        after = fetch(*key)
+        b = before[key]
+        if (after is None) != (b is None) or (b is not None and not (np.array_equal(after[0], b[0]) and np.array_equal(after[1], b[1]))):
+            ctx.fail('rule_changed_by_earlier_caller', f'{key[0]} order {key[1]} differs after the caller of ({name}, {n}) rescaled '
+                     f'its own result in place', cell=key[0], _order=key[1], _scribbled=[name, n])
+            return
+
+
 PROP = Prop(
     'C08', 'quadrature rules deliver their advertised degree',
     rule=('complete enumeration of (reference cell, order n from -1 up to the probed maximum, monomial) triples: '
@@ -115,5 +160,5 @@ PROP = Prop(
     assumptions=['exact rational reference integrals (Fractions) compared at 5e-13 relative',
                  'any exception for an order counts as "raises" (the property does not fix the type)',
                  'Gauss-Legendre based cells accept every order; they are probed up to the stated maximum only'],
-    subs=[Sub('rules', body, cases=cases, max_shards=16)],
+    subs=[Sub('rules', body, cases=cases, max_shards=16), Sub('repeat_calls', body_repeat, cases=cases_repeat, max_shards=8)],
     design_ref='DESIGN.md section 6, C08')
